@@ -286,8 +286,8 @@ def shape_of(sc, trace, H):
         if f or trace["outcome"] != "ok" or H["zipcommit"] != "append":
             return None
         return 3 if sc.get("in_zip") else 2
-    if sc["writer"] == "dictarray" and f:
-        return None    # fails before atomic_write is entered
+    if f and not trace["events"]:
+        return None    # fails before atomic_write is entered (nothing touches the file system)
     if f == "badmode":
         return 5
     if f == "early":
@@ -325,7 +325,7 @@ def check_part_a(rep, scs, res, H, pr, disagreements, samples, nontrivial, dist)
             if shape == 5 or (shape in (2, 3) and r["mode"] == "fault"):
                 continue
             k = r["k"]
-            if k < len(codes) and codes[k] == 0 and r["mode"] == "fault":
+            if k < len(codes) and codes[k] == 0:
                 continue    # inside rmtree's own scan: part of the enclosing rmtree
             km = sum(1 for c in codes[:k] if c != 0)
             where[(si, ri)] = len(cases)
@@ -394,6 +394,8 @@ def check_part_a(rep, scs, res, H, pr, disagreements, samples, nontrivial, dist)
                 what = "dest" if bad_dest else "leftover"
                 if sc.get("in_zip") and bad_dest:
                     key = f"inzip:{mode}:archive-neither-previous-nor-new"
+                elif what == "leftover" and exc != "OSError":
+                    key = f"fault:leftover:{wt}:{ft}:{exc}"      # coarse: one replay per writer x outcome x exception class
                 else:
                     key = f"{mode}:{what}:{wt}:{ft}:before-op{opcode}:dest{dc}" + (f":{exc}" if exc not in (None, "OSError") else "")
                 rep.violation(key,
